@@ -173,4 +173,21 @@ func init() {
 		Technique: "runtime monitoring: scripted fault-injecting data source + history checker (exactly-once/in-order/closing), snapshot-based liveness, Go race detector",
 		DesignRef: "DESIGN.md §3 C16",
 	})
+	add(Spec{
+		PropSpec: vlib.PropSpec{
+			ID: "C14", Level: "fault_enumeration",
+			Rule: "Files are produced by the library's writers from PRNG packet sequences (0..9 packets; data 0..120 bytes, a 1400..1600 tier, lengths not multiple of 4; caplen <= len; timestamps over the representable range incl. 0 / 999 999 999 ns / sub-microsecond): classic pcap us and ns (snaplen = max caplen, larger, 262144, or 0; 5 link types) and pcapng (1..4 interfaces added while writing, same or mixed link types, names/comments/descriptions/filters/OS/tsoffset/snaplen, section info, per-packet comments incl. empty strings and every length mod 4, flags, hashes, drop count, packet id, queue, verdicts, interface statistics blocks in between); the writer-side log records the file offset after each flushed packet. roundtrip phase: read back with ReadPacketData, ReadPacketDataWithOptions and ZeroCopyReadPacketData and compare data, lengths, interface / link type, options, timestamps to file resolution, section and interface descriptions; must end with io.EOF. truncate phase (crash-point enumeration): for every generated file (<= 6 KiB) and every read API, EVERY byte offset k in 0..len is cut and read: the packets returned before the first error must be exactly those whose end offset <= k, equal to the full-file read, and the terminating error (constructor or read) must satisfy errors.Is(io.EOF) or errors.Is(io.ErrUnexpectedEOF). libpcap phase: the same writers' files (classic us/ns, single-link-type pcapng) are read with pcap.OpenOffline and compared (data, caplen, len, timestamp to the microsecond, link type). Non-trivial = file with >= 3 packets and (per-packet options or a data length not multiple of 4); distinct by file content hash.",
+			Assumptions: []string{"generator respects the formats' own preconditions: caplen <= len, caplen <= snaplen when snaplen != 0, 0 <= Unix time < 2^32 s (classic), 1970..2262 (pcapng), strings < 64 KiB", "crash points are enumerated exhaustively per file; files are sampled", "libpcap (system library) is the independent reader of the cross-check"},
+			Phases: []vlib.Phase{
+				{Name: "roundtrip", Bin: "vchild", Quick: 16, Thorough: 16},
+				{Name: "truncate", Bin: "vchild", Quick: 16, Thorough: 16},
+				{Name: "libpcap", Bin: "vpcap", Quick: 8, Thorough: 16},
+			},
+			Require: []string{"roundtrip_reads_pcapng", "roundtrip_reads_pcap-us", "roundtrip_reads_pcap-ns", "truncation_offsets_enumerated", "files_truncated_at_every_offset", "libpcap_packets_compared", "files_with_packet-options", "files_with_several-interfaces"},
+		},
+		LevelText: "Runtime monitor with fault enumeration: files written by the real writers are read back by the real readers and by libpcap; the 'process dies while writing' fault is enumerated exhaustively as every truncation offset of every generated file, with a writer-side offset log as oracle.",
+		LevelNote: trusted,
+		Technique: "runtime monitoring: round-trip + independent reader (libpcap) differential, exhaustive crash-point (truncation offset) enumeration per file",
+		DesignRef: "DESIGN.md §3 C14",
+	})
 }
